@@ -124,15 +124,19 @@ Rec(t, what) == sched' = Append(sched, [t |-> t, a |-> what])
 Lose(t) == own' = [own EXCEPT ![t] = @ - 1]      \* the handle leaves X (dropped, or now on a private buffer)
 
 \* ------------------------------------------------ fetching the next op
-\* ops on a handle of X:  clone read drop push reserve trunc clear shrink
-\* through the lent reference:  readb cloneb      thread 1:  join
+\* ops on a handle of X:  clone read drop push reserve trunc clear shrink rm
+\*   cfrom: clone_from between two handles of X the thread owns (make_shallow_clone of the source, then
+\*          the release half of replace_inner on the target: the count goes up, then down)
+\* through the lent reference:  readb cloneb  cfromb (clone_from(&lent) into an own handle of X)      thread 1:  join
 OpOK(t, op) ==
   CASE op \in {"readb", "cloneb"} -> t \in Borrowers /\ lent
+    [] op = "cfromb" -> t \in Borrowers /\ lent /\ own[t] > 0
+    [] op = "cfrom" -> own[t] > 1
     [] op = "join" -> t = 1 /\ \A u \in Borrowers : ip[u] > Len(Progs[u]) /\ pc[u] = "next"
     [] op \in {"clone", "read"} -> own[t] > 0 \/ (t = 1 /\ lent)
     [] OTHER -> own[t] > 0
 First(op) ==
-  CASE op \in {"clone", "cloneb"} -> "c_inc"
+  CASE op \in {"clone", "cloneb", "cfrom", "cfromb"} -> "c_inc"
     [] op \in {"read", "readb", "trunc"} -> "r_read"
     [] op = "drop" -> "d_dec"
     [] op \in {"push", "reserve", "shrink", "clear"} -> (IF Variant = "decprobe" /\ op \in {"push", "reserve"} THEN "p_dec" ELSE "u_load")
@@ -149,7 +153,7 @@ Fetch(t) == /\ pc[t] = "next" /\ ip[t] <= Len(Progs[t])
 
 \* clone: make_shallow_clone
 CInc(t) == pc[t] = "c_inc" /\ RMW(t, 1, OrdCloneInc) /\ own' = [own EXCEPT ![t] = @ + 1]
-           /\ Goto(t, "next") /\ UNCHANGED <<ip, lent>> /\ NoBuf /\ Rec(t, "rmw+")
+           /\ Goto(t, IF Cur(t) \in {"cfrom", "cfromb"} THEN "d_dec" ELSE "next") /\ UNCHANGED <<ip, lent>> /\ NoBuf /\ Rec(t, "rmw+")
 \* read the text (as_str by the user; pop/truncate read it too)
 RRead(t) == pc[t] = "r_read" /\ BufRead(t)
             /\ Goto(t, IF Cur(t) = "rm" THEN (IF VariantE = "decprobe" THEN "p_dec" ELSE "u_load") ELSE "next")
